@@ -286,6 +286,7 @@ func cmdCheck(args []string) {
 	noReplay := fs.Bool("no-replay", false, "skip native replay (debugging only)")
 	verbose := fs.Bool("v", false, "verbose")
 	paramOv := fs.String("params", "", "override params, e.g. n=3,m=1")
+	maxViol := fs.Int("maxviol", 3, "stop an instance after this many unlisted violations")
 	fs.Parse(args)
 	if *prop == "" {
 		fatal("-prop required")
@@ -364,7 +365,7 @@ func cmdCheck(args []string) {
 					x.SetBudgets(j.spec.MaxPaths, 0, 0)
 				}
 				kf := func(v *interp.Violation) bool { return matchKnown(known, *prop, v) != nil }
-				res := interp.RunHarnessK(ld.prog, j.fn, x, j.params, 3, kf)
+				res := interp.RunHarnessK(ld.prog, j.fn, x, j.params, *maxViol, kf)
 				x.Close()
 				results[idx] = jobResult{job: j, res: res, dur: time.Since(t1)}
 				if *verbose {
